@@ -156,6 +156,7 @@ def contracts(T: Types, reg: Registry, G: dict, variant: str = "C11"):
         "conf": ObjT("ThreadRunnerConf"), "max_threads": INT, "_shutdown_signum": Opt(INT), "_last_atomic_service_check_time": REAL,
     }, cls=(TR, "ThreadRunner")))
     sh = reg.shapes["ThreadRunner"]
+    sh.auto_fields = True        # further bookkeeping attributes of the runner classes are "don't care" fields of their annotated type
     sh.properties = ("runner_context", "runner_id", "logger", "max_parallel_slots")
     sh.backrefs = [("app.orchestrator", "app", "app"), ("app.broker", "app", "app"), ("app.state_backend", "app", "app"), ("app.trigger", "app", "app")]
     reg.dropped_calls.append(re.compile(r"(^|\.)_run_stopped\.(set|clear)$"))
